@@ -12,7 +12,9 @@ import vlib
 
 PROPS = ["C01", "C02", "C03", "C13", "C14"]
 
-PROC_NOTE = ("Trusted: TLC, the Go toolchain, ECDSA/Keccak. The exhaustive run is at scaled constants (3-4 keys, 2 digests); "
+PROC_NOTE = ("Histories are replayed twice: by calling the handlers directly and through the real Processor.Run select loop; they include "
+             "guardian-set rotations, process restarts on the same store, store faults and a full outbound request queue. "
+             "Trusted: TLC, the Go toolchain, ECDSA/Keccak. The exhaustive run is at scaled constants (3-4 keys, 2 digests); "
              "the bridge to real sizes (sets of 1..19, real keys, real Badger store) is trace validation of replayed TLC "
              "behaviours and seeded adversarial histories. Time is simulated by shifting recorded instants in-package.")
 
